@@ -116,7 +116,7 @@ static inline int ring_getc(struct ring_head *r, const char *buffer)
 {
     if (ring_empty(r))
         return -1;
-    char c = *(buffer + r->tail);
+    unsigned char c = (unsigned char)*(buffer + r->tail);
     ring_move_tail_one(r);
     return c;
 }
